@@ -443,8 +443,8 @@ var (
 		"C=US,S=WA,ST=WA,O=x", "C=US,ST=WA,O=x,", "C=US,ST=WA,O=x\\zz", "c=US,st=WA,o=x", " ", "C=US;ST=WA;O=x+CN=y",
 	}
 	pScopes = []string{
-		"registry.acme-rockets.io/software/net-monitor", "localhost:5000/a", "a/b", "example.com/a/b_c", "10.0.0.1:80/x",
-		"reg.io/a__b", "reg.io/a-b", "reg.io/a.b", "reg.io/a---b", "Reg-1.IO/x/y/z", "r/0", "wabbit-networks.io/sw/unsigned",
+		"registry.acme-rockets.io/net", "localhost:5000/a", "a/b", "example.com/a/b_c", "10.0.0.1:80/x",
+		"reg.io/a__b", "reg.io/a-b", "reg.io/a.b", "reg.io/a---b", "Reg-1.IO/x/y/z", "r/0", "wabbit-networks.io/sw/un",
 		"reg.io/net", "reg.io/web", "ghcr.io/o/r", "local/oci",
 	}
 	pBadScopes = []string{
